@@ -13,7 +13,10 @@ scheduled the remaining `AddCollectedEvent` results of the tick are skipped
 (`foldl_applyRes_rerun`; the reducer before that repair could re-issue the same slot twice,
 see `WfProofs/EngineUnrepaired.lean` and `WfProps/C01.lean`).
 
-Part 2 (runner): `RunInv`, preserved by every action.
+Part 2 (runner): `RunInv`, preserved by every action.  Besides the inclusion it records where a
+`stepResult` tick can be — only in the buffer, alone — and that the slot it reports on is a configured
+step's and still in progress: with the worker-slot invariant that is all `reduce` needs to raise nothing
+(`WfProofs/EngineNoCrash.lean`, `WfProofs/RunnerNoCrash.lean`, C04).
 -/
 set_option linter.unusedSimpArgs false
 set_option linter.unusedVariables false
@@ -308,8 +311,8 @@ theorem applyRes_rerun (cfg : Cfg) (pol : Policy) (step : Nat) (tickEv : Ev) (dc
     simp only [applyRes]
     split
     · exact ⟨Or.inl ⟨rfl, workersOf_snoc_noStart _ _ (by intro s e w; simp)⟩, rfl⟩
-    · exact ⟨Or.inl ⟨rfl, workersOf_snoc_noStart _ _ (by intro s e w; simp)⟩, rfl⟩
-    · split
+    all_goals
+      split
       · split
         · exact ⟨Or.inl ⟨rfl, workersOf_snoc_noStart _ _ (by intro s e w; simp)⟩, rfl⟩
         · exact ⟨Or.inl ⟨rfl, workersOf_snoc_noStart _ _ (by intro s e w; simp)⟩, rfl⟩
@@ -916,7 +919,10 @@ structure RunInv (cfg : Cfg) (P : Prop) (r : Runner) : Prop where
   buf : NoSR r.buf ∨ ∃ s w ev res, r.buf = [.stepResult s w ev res] ∧
     (∀ x ∈ r.running, ¬ (x.step = s ∧ x.wid = w)) ∧
     (P → (∀ ip ∈ (r.st.workers s).inProg, ip.wid = w → ip.ev = ev) ∧
-      ∀ b e, Res.addCollected b e ∈ res → e = ev)
+      ∀ b e, Res.addCollected b e ∈ res → e = ev) ∧
+    -- the slot the tick reports on is a configured step's and is in progress: the reducer's
+    -- `Worker N not found in in_progress` (and its `KeyError` for an unknown step) cannot happen
+    (s ∈ cfg.names ∧ ∃ ip ∈ (r.st.workers s).inProg, ip.wid = w)
 
 /-! ### `execCmds` -/
 
@@ -1117,7 +1123,7 @@ theorem step_runInv (cfg : Cfg) (hwf : cfg.WF) (pol : Policy) (P : Prop) (r : Ru
           simp only [List.cons.injEq] at hb
           rw [hb.2]; intro x hx; cases hx
       have hTick : TickOk P r.st t ∧ ∀ x ∈ r.running, ¬ t.freed x.step x.wid := by
-        rcases h.buf with hn | ⟨s, w, ev, res, hb, hfree, hp⟩
+        rcases h.buf with hn | ⟨s, w, ev, res, hb, hfree, hp, _⟩
         · have ht := hn t (by rw [hbuf]; simp)
           cases t <;> first
             | exact ⟨trivial, fun _ _ hf => hf⟩
@@ -1156,7 +1162,7 @@ theorem step_runInv (cfg : Cfg) (hwf : cfg.WF) (pol : Policy) (P : Prop) (r : Ru
           · exact List.nil_sublist _
           · exact List.eraseP_sublist
         have hss := sub_of_sublist hsl ⟨h.sub, h.nodup⟩
-        refine ⟨h.ids, hss.1, hss.2, h.mbox, h.heap, Or.inr ⟨s, w, x.ev, res, rfl, ?_, ?_⟩⟩
+        refine ⟨h.ids, hss.1, hss.2, h.mbox, h.heap, Or.inr ⟨s, w, x.ev, res, rfl, ?_, ?_, ?_⟩⟩
         · intro y hy
           simp only at hy
           split at hy
@@ -1181,6 +1187,9 @@ theorem step_runInv (cfg : Cfg) (hwf : cfg.WF) (pol : Policy) (P : Prop) (r : Ru
               List.all_eq_true] at this
             have := this _ hmem
             simpa [Res.evIs] using this
+        · obtain ⟨hname, ip0, hip0, hw0, _⟩ := h.sub x hx
+          rw [hxp.1] at hname hip0
+          exact ⟨hname, ip0, hip0, hw0.trans hxp.2⟩
   | pull =>
     simp only
     split
